@@ -3,7 +3,7 @@
    sweep of the 128/64 division algorithm at 3-bit halves. *)
 From Coq Require Import Arith NArith ZArith List Bool Lia Psatz.
 From Coq Require Import ZifyBool ZifyNat ZifyN.
-From Qv Require Import BigIntModel BigIntProofs BigIntProofs2 BigIntHelpers BigIntShift BigIntShiftL BigIntBits BigIntFfb BigIntWide.
+From Qv Require Import BigIntModel BigIntProofs BigIntProofs2 BigIntHelpers BigIntShift BigIntShiftL BigIntBits BigIntFfb BigIntWide BigIntNarrow BigIntSetWide.
 Import ListNotations.
 Local Open Scope N_scope.
 
@@ -29,10 +29,11 @@ Section W.
   | P_Shl : forall k, proved_op (OShl k)
   | P_Shr : forall k, proved_op (OShr k)
   | P_Clear : proved_op OClear
-  | P_Set : forall ow v, ow <= w -> proved_op (OSet ow v)
+  | P_Set : forall ow v, ow <= w \/ 2 * w <= ow -> proved_op (OSet ow v)
   | P_And : forall ow v, ow <= w -> proved_op (OAnd ow v)
   | P_Or : forall ow v, ow <= w -> proved_op (OOr ow v)
-  | P_Copy : forall ow v, ow <= w -> proved_op (OCopy ow v)
+  | P_Copy : forall ow v, ow <= w \/ 2 * w <= ow -> proved_op (OCopy ow v)
+  | P_Narrow : forall tw, (tw <= w \/ exists c : nat, (2 <= c)%nat /\ tw = w * N.of_nat c) -> proved_op (ONarrow tw)
   | P_Ffb : proved_op OFfb
   | P_Flb : proved_op OFlb
   | P_Cmp : forall v, proved_op (OCmp v).
@@ -114,13 +115,24 @@ Section W.
     intros ow s v How Hv. unfold assign. rewrite (proj1 (do_operation_le KSet ow s v How Hv)). reflexivity.
   Qed.
 
+  Lemma assign_any : forall ow s v, ow <= w \/ 2 * w <= ow -> v < 2 ^ ow -> WF w s ->
+    v < pw (length (words s)) ->
+    exists s', assign w ow s v = Ok s' /\ WF w s' /\ bval s' = v /\ length (words s') = length (words s).
+  Proof.
+    intros ow s v [How|How] Hvo HWF Hfit.
+    - rewrite (assign_le ow s v How Hvo). apply assign_word_correct; [exact HWF|].
+      exact (proj2 (do_operation_le KSet ow s v How Hvo)).
+    - assert (H2 : 1 < ow / w) by (assert (2 <= ow / w) by (apply N.div_le_lower_bound; lia); lia).
+      exact (assign_wide_correct w w_pos ow s v H2 HWF Hfit).
+  Qed.
+
   Theorem step_correct : mul2_ok w -> div2_ok w -> forall n s o v' r,
     proved_op o -> WF w s -> length (words s) = n ->
     spec_op w n (bval s) o = Some (v', r) ->
     exists s', run_op w s o = Ok (s', r) /\ WF w s' /\ bval s' = v' /\ length (words s') = n.
   Proof.
     intros Hmul Hdiv n s o v' r Hp HWF Hn Hs.
-    destruct Hp as [v i|v i|ow v How|ow v How|v|v|k|k| |ow v How|ow v How|ow v How|ow v How| | |v]; cbn [spec_op run_op] in *; rewrite ?lim_pw in Hs.
+    destruct Hp as [v i|v i|ow v How|ow v How|v|v|k|k| |ow v How|ow v How|ow v How|ow v How|tw Htw| | |v]; cbn [spec_op run_op] in *; rewrite ?lim_pw in Hs.
     - destruct (N.ltb_spec v B) as [Hv|]; [|discriminate].
       destruct (N.ltb_spec (bval s + v * pw i) (pw n)) as [Hfit|]; [|discriminate].
       inversion Hs; subst v' r.
@@ -178,8 +190,7 @@ Section W.
       rewrite Hrun. cbn [bind]. exists s'. repeat split; try apply HWF'; auto; lia.
     - destruct (N.ltb_spec v (2 ^ ow)) as [Hvo|]; [|discriminate].
       destruct (N.ltb_spec v (pw n)) as [Hfit|]; [|discriminate]. inversion Hs; subst v' r.
-      rewrite (assign_le ow s v How Hvo). pose proof (proj2 (do_operation_le KSet ow s v How Hvo)) as Hv.
-      destruct (assign_word_correct w s v HWF Hv) as (s' & Hrun & HWF' & Hval & Hl).
+      destruct (assign_any ow s v How Hvo HWF ltac:(rewrite Hn; exact Hfit)) as (s' & Hrun & HWF' & Hval & Hl).
       rewrite Hrun. cbn [bind]. exists s'. repeat split; try apply HWF'; auto; lia.
     - destruct (N.ltb_spec v (2 ^ ow)) as [Hvo|]; [|discriminate].
       destruct (N.ltb_spec v (pw n)) as [Hfit|]; [|discriminate]. cbn [andb] in Hs. inversion Hs; subst v' r.
@@ -193,14 +204,16 @@ Section W.
       rewrite Hrun. cbn [bind]. exists s'. repeat split; try apply HWF'; auto; lia.
     - destruct (N.ltb_spec v (2 ^ ow)) as [Hvo|]; [|discriminate].
       destruct (N.ltb_spec v (pw n)) as [Hfit|]; [|discriminate]. inversion Hs; subst v' r.
-      rewrite (assign_le ow _ v How Hvo). pose proof (proj2 (do_operation_le KSet ow s v How Hvo)) as Hv.
       assert (Hn0 : (0 < length (words s))%nat) by (destruct HWF as ((_ & Hi & _) & _); lia).
       destruct (zero_big_WF (length (words s)) Hn0) as (HWFz & _).
-      destruct (assign_word_correct w (zero_big (length (words s))) v HWFz Hv) as (src & Hrun1 & HWFs & Hvs & Hls).
-      rewrite Hrun1. cbn [bind].
       assert (Hlz : length (words (zero_big (length (words s)))) = length (words s)) by (cbn; apply repeat_length).
+      destruct (assign_any ow (zero_big (length (words s))) v How Hvo HWFz ltac:(rewrite Hlz, Hn; exact Hfit))
+        as (src & Hrun1 & HWFs & Hvs & Hls).
+      rewrite Hrun1. cbn [bind].
       destruct (copy_assign_correct w s src HWF HWFs ltac:(lia)) as (s' & Hrun & HWF' & Hval & Hl).
       rewrite Hrun. cbn [bind]. exists s'. repeat split; try apply HWF'; auto; lia.
+    - inversion Hs; subst v' r.
+      rewrite (narrow_correct w w_pos s tw HWF Htw). cbn [bind]. exists s. repeat split; try apply HWF; auto.
     - destruct (N.eqb_spec (bval s) 0) as [|Hnz]; [discriminate|]. inversion Hs; subst v' r.
       rewrite (find_first_bit_correct w w_pos s HWF Hnz). cbn [bind]. exists s. repeat split; try apply HWF; auto.
     - destruct (N.eqb_spec (bval s) 0) as [|Hnz]; [discriminate|]. inversion Hs; subst v' r.
@@ -314,4 +327,24 @@ Proof.
   destruct (div2_half 3 hi lo d (5 - N.log2 d)) as [r q].
   apply andb_true_iff in H. destruct H as (H1 & H2).
   apply N.eqb_eq in H1. apply N.eqb_eq in H2. subst. reflexivity.
+Qed.
+
+Example history_nonvacuous :
+  let ops := [OSet 64 18446744073709551615; OShr 9; OMul 255; OAdd 64 4294967296; OSub 8 7; ODiv 129;
+              OShl 13; OFfb; OFlb; OCmp 5; ONarrow 16; OAnd 8 240; OOr 8 1; OCopy 64 65536; OClear] in
+  Forall (proved_op 8) ops /\ exists outs, spec_run 8 9 0 ops = Some outs /\ length outs = 15%nat.
+Proof.
+  split.
+  - cbv zeta.
+    repeat match goal with
+           | |- Forall _ (_ :: _) => apply Forall_cons
+           | |- Forall _ [] => apply Forall_nil
+           end;
+    match goal with
+    | |- proved_op _ (ONarrow _) => apply P_Narrow; right; exists 2%nat; split; [lia|reflexivity]
+    | |- proved_op _ _ => constructor; ((left; lia) || (right; lia))
+    | |- proved_op _ _ => constructor; lia
+    | |- proved_op _ _ => constructor
+    end.
+  - eexists. split; [vm_compute; reflexivity|reflexivity].
 Qed.
